@@ -72,6 +72,11 @@ def run(repo, rep, tier):
     _raise_sites(repo, rep, split_ok)
     _token_tables(repo, rep, split_ok)
     _parser_outputs(repo, rep)
+    from . import c05
+    L.borrow(repo, rep, "R11.3", "C05", c05._reserved_rule,
+             ("double-underscore", "in-reserved-set"))
+    _part_errors(repo, rep)
+    _group_helpers(repo, rep)
     _text_visits(repo, rep)
     _match_spans(repo, rep)
     _location(repo, rep)
@@ -773,6 +778,47 @@ def _parser_outputs(repo, rep):
               "parse_tag dissects the token it was given (match_tag(%s))"
               % tok, construct="tag-parsed-itself", where=L.where(pt),
               detail=P.path_text(miss[0], 10) if miss else "")
+
+
+def _part_errors(repo, rep):
+    """a malformed part of a ';'-separated clause is reported where it is
+    found: the parser raises a LanguageError carrying *that part* (not None
+    for the caller to report the whole clause)"""
+    for q in ("chameleon.tal.parse_defines", "chameleon.tal.parse_attributes"):
+        f = repo.func(q)
+        loops = [n for n in ast.walk(f.node) if isinstance(n, ast.For)
+                 and "split_parts(" in src(n.iter)]
+        ok = False
+        if loops:
+            part = src(loops[0].target)
+            raises = [r for r in ast.walk(loops[0]) if isinstance(r, ast.Raise)
+                      and isinstance(r.exc, ast.Call) and len(r.exc.args) >= 2
+                      and src(r.exc.args[1]) == part]
+            rets = [r for r in ast.walk(loops[0]) if isinstance(r, ast.Return)]
+            ok = bool(raises) and not rets
+        rep.check(ok, "R11.2", f.qualname, "a malformed part raises inside "
+                  "the loop over the parts, with the part as token (no early "
+                  "return that leaves the reporting to the caller)",
+                  construct="part-error:" + f.name, where=L.where(f))
+
+
+def _group_helpers(repo, rep):
+    """groups() / groupdict() re-slice the token by the match spans: every
+    group that *took part* in the match (value is not None) must become a
+    Token -- also when it matched the empty string: an empty statement
+    argument is reported at its own position."""
+    for q in ("chameleon.parser.groups", "chameleon.parser.groupdict"):
+        f = repo.func(q)
+        tests = [n.test for n in ast.walk(f.node)
+                 if isinstance(n, (ast.If, ast.IfExp))]
+        ok = bool(tests) and all(
+            src(L._CanonIf._pos(t)[0]).replace(" ", "").endswith("isNone")
+            for t in tests)
+        rep.check(ok, "R11.1", f.qualname, "the helper tells a group that "
+                  "did not take part (None) from one that matched -- by "
+                  "identity with None, not by truthiness (an empty match "
+                  "keeps its position)", construct="group-none-test",
+                  where=L.where(f), detail=str([src(t) for t in tests]))
 
 
 def _text_visits(repo, rep):
